@@ -24,6 +24,11 @@ def run(tier, seed, work, replay):
         rows, r = orig(work_, module, cfg, **kw)
         return [x for x in rows if x["handler"] in BOUND], r
     E.tlc_export = export
+    # as-built negative control: a filter that only looks at the first two characters is not closed under the
+    # dot-segment removal of the redirecting step (TLC must find "/./\\host")
+    r = E.tlc(work, "KMWeb", "Neg_KMWeb_C17_PrefixOnly.cfg", timeout=300, tag="neg-prefixonly")
+    if not r["violated"]:
+        raise E.Inconclusive("negative control Neg_KMWeb_C17_PrefixOnly found no violation")
     try:
         res, evs = tablecheck.run_table(
             "C17", tier, seed, work, "KMWeb", ["MC_KMWeb_C17%s.cfg" % suffix], "Gen_KMWeb", "Gen_KMWeb_C17%s.cfg" % suffix,
@@ -32,10 +37,11 @@ def run(tier, seed, work, replay):
             lambda e: (e["case"]["handler"], tuple(e["case"]["dest"]), e["out"]["profile"]))
     finally:
         E.tlc_export = orig
-    res.cov["rule"] = ("all destination strings over 15 character classes up to length %d through the login handler, all "
+    res.cov["rule"] = ("all destination strings over 15 character classes up to length %d and over {slash, backslash, dot, host, ?} up "
+                       "to length %d through the login handler (the redirecting step's dot-segment removal is part of the model), all "
                        "up to length 2 and the dangerous prefixes + host through every bound redirecting handler; the guard "
                        "is evaluated on the classes of the OBSERVED Location header (after net/http's CR/LF->space wire "
-                       "sanitisation)" % (4 if tier == "thorough" else 3))
+                       "sanitisation)" % ((4, 6) if tier == "thorough" else (3, 5)))
     res.cov["exhaustive"] = True
     res.cov["handlers_bound"] = sorted(BOUND)
     res.cov["kept_destination"] = sum(1 for e in evs if e["out"]["redirected"] and not e["out"]["profile"])
